@@ -1,5 +1,6 @@
 import StepModel.P21SafeLemmas
 import StepModel.P21SafeLoopLemmas
+import StepModel.P21SafeTermination
 import StepModel.Generated.C05Buffers
 /-! # C05 — reading and writing Part 21 is memory-safe and terminates (the part Lean can carry)
 
@@ -322,6 +323,54 @@ theorem C05_terminates_readComment_loop (s : IS) (c : Byte) (len steps : Nat) :
     (commentLoop C05.readCommentIters s c len steps).2.2.2.2 ≤ steps + C05.readCommentIters := by
   generalize C05.readCommentIters = iters
   fun_induction commentLoop iters s c len steps <;> simp_all <;> omega
+
+
+theorem IS.m_le (s : IS) : s.m ≤ s.rest.length + 1 := by
+  unfold IS.m; split <;> omega
+
+/-- `SkipInstance` (with the regenerated comment case and comment limit): fuel `|remaining bytes| + 2` is enough for
+every stream state; the stream never gets longer.  (Fuel bounds the iterations of the loop itself; iterations of the
+nested string / comment readers are bounded by the bytes they consume resp. by `readCommentIters`.) -/
+theorem C05_terminates_skipInstance (s : IS) :
+    ∃ r, skipInstance C05.skipInstanceSkipsComments C05.readCommentIters (s.rest.length + 2) s = .ok r ∧ r.s.m ≤ s.m := by
+  have := IS.m_le s
+  exact scanUntil_terminates chSemi false _ _ (s.rest.length + 2) s 0 0 0 (by omega)
+
+theorem C05_terminates_findStartOfInstance (s : IS) :
+    ∃ r, findStartOfInstance (s.rest.length + 2) s = .ok r ∧ r.s.m ≤ s.m := by
+  have := IS.m_le s
+  exact scanUntil_terminates chHash true false 0 (s.rest.length + 2) s 0 0 0 (by omega)
+
+/-- `ReadTokenSeparator` (white space, comments — each with the `SkipInstance` fallback —, print control directives) -/
+theorem C05_terminates_readTokenSeparator (s : IS) :
+    ∃ r, readTokenSeparator C05.skipInstanceSkipsComments C05.readCommentIters (s.rest.length + 2) s = .ok r ∧ r.s.m ≤ s.m := by
+  have := IS.m_le s
+  exact readTokenSeparator_terminates _ _ (s.rest.length + 2) s (by omega)
+
+/-- the whole `);` recovery scan of `SDAI_Application_instance::STEPread` (outer and inner loop) -/
+theorem C05_terminates_recoveryScan (s : IS) (c : Byte) :
+    ∃ r, recoveryScan (s.rest.length + 2) s c = .ok r := by
+  have : s.clear.meas ≤ s.rest.length + 1 := by
+    have := IS.meas_le s.clear
+    simpa [IS.clear] using this
+  exact recoverOuter_terminates (s.rest.length + 2) s.clear c 0 0 (by omega)
+
+/-- the export-list loops of Create/ReadScopeInstances, with the regenerated loop condition -/
+theorem C05_terminates_exportList (s : IS) (c : Byte) (steps : Nat) :
+    (∃ r, exportLoop C05.exportLoopChecksStreamCreate C05.skipInstanceSkipsComments C05.readCommentIters
+        (s.rest.length + 2) s c steps = .ok r) ∧
+    (∃ r, exportLoop C05.exportLoopChecksStreamRead C05.skipInstanceSkipsComments C05.readCommentIters
+        (s.rest.length + 2) s c steps = .ok r) := by
+  have h1 : C05.exportLoopChecksStreamCreate = true := by decide
+  have h2 : C05.exportLoopChecksStreamRead = true := by decide
+  have := IS.m_le s
+  rw [h1, h2]
+  exact ⟨exportLoop_terminates _ _ _ s c steps (by omega), exportLoop_terminates _ _ _ s c steps (by omega)⟩
+
+/-- before `fixes/C05-7` (`while( c == ',' )` only): at end of input the loop is out of fuel for every fuel -/
+theorem C05_exportList_hang_witness (cm : Bool) (iters : Nat) (pre : List Byte) :
+    ∀ fuel, exportLoop false cm iters fuel ⟨pre, [], true, true, true⟩ chComma 0 = .outOfFuel :=
+  fun fuel => exportLoop_unchecked_spins cm iters pre true fuel 0
 
 /-- regenerated facts the file-level budget relies on (not modelled proofs): the comment limit and the error cut-off
 are finite constants of the size the constant `c₂` of the linear bound absorbs, and `PushPastImbedAggr` does not
